@@ -8,7 +8,7 @@
 (*                                                                         *)
 (* TYPES   [k |-> leaf kind]                                               *)
 (*         [k |-> "ptr"|"slice", e |-> T]   [k |-> "arr", n |-> 0..2, e]    *)
-(*         [k |-> "map", key |-> "str"|"int"|"i8"|"u8"|"txt", e |-> T]      *)
+(*         [k |-> "map", key |-> "str"|"txt"| any integer kind, e |-> T]    *)
 (*         [k |-> "st", f |-> <<field>>], field = [tag, jn, t]              *)
 (*   leaf kinds: bool, i8..int, u8..uint, f32, f64, str, iface (interface{})*)
 (*     num (json.Number), raw (json.RawMessage), bytes ([]byte),           *)
@@ -188,16 +188,19 @@ Select(fs, key, o) ==
      ELSE 0
 
 \* ---- map keys ----
+\* map keys are converted with strconv.ParseInt / ParseUint of the key's width: the key text denotes a number class
+KeyClass(key) == CASE key = "12" -> "p12" [] key = "01" -> "p7" [] key = "9" -> "p7" [] key = "1" -> "p7" [] key = "-1" -> "n3" [] key = "-129" -> "n200"
+                   [] key = "200" -> "p200" [] key = "300" -> "p300" [] key = "40000" -> "p40000" [] key = "-40000" -> "n40000"
+                   [] key = "3000000000" -> "p3e9" [] key = "5000000000" -> "p5e9" [] key = "9223372036854775808" -> "p2_63"
+                   [] key = "-9223372036854775808" -> "n2_63" [] OTHER -> "none"
+KeySBits(c) == IF c = "n40000" THEN 32 ELSE SBits(c)
 \* canonical key after conversion, or "bad"
 KeyConv(key, kind) ==
-  CASE kind \in {"str", "txt"} -> key
-    [] key = "12" -> "12"
-    [] key = "9" -> "9"
-    [] key = "1" -> "1"
-    [] key = "01" -> "1"
-    [] key = "-1" -> IF kind \in {"int", "i8"} THEN "-1" ELSE "bad"
-    [] key = "300" -> IF kind = "int" THEN "300" ELSE "bad"
-    [] OTHER -> "bad"
+  IF kind \in {"str", "txt"} THEN key
+  ELSE LET c == KeyClass(key) IN
+       IF c = "none" THEN "bad"
+       ELSE IF kind \in IntKinds THEN (IF KeySBits(c) <= Bits(kind) THEN (IF key = "01" THEN "1" ELSE key) ELSE "bad")
+       ELSE (IF c # "n40000" /\ UBits(c) <= Bits(kind) THEN (IF key = "01" THEN "1" ELSE key) ELSE "bad")
 
 \* ---- the decoder ----
 RECURSIVE Dec(_, _, _, _)
